@@ -198,6 +198,10 @@ def run(cx):
         ok = any(FR.arg_canon(fn, P, cn, b, 0) == 'index_mut(repeat{SubWithOverflow(16, (%s as u8)).0}, RangeTo::RangeTo{%s})' % (rem, rem) and
                  FR.arg_canon(fn, P, cn, b, 1) == 'index($data, %s)' % TAILFROM for b in cps)
         cx.add('I-CBC-PAD', 'cbc_encrypt/tail-copy', ok, 'the data tail is copied into the first len%16 bytes of the padding block', fn.loc())
+        pad_blocks = [b for b, t in fn.calls() if b not in inloop and t['fn']['k'] == 'def' and last(t['fn']['name']) == 'extend_from_slice']
+        oks = G.ok_sinks(fn)
+        left = [s_ for s_ in oks if s_ in fn.reachable(0, removed_blocks=set(pad_blocks))]
+        cx.add('I-CBC-PAD', 'cbc_encrypt/always', bool(pad_blocks) and not left, 'every successful return of cbc_encrypt has appended the padding block (output is the next multiple of 16, also for empty input)', fn.loc())
         # polarity: the 0x10 block only when rem == 0
         pol = {k: v for k, v in outs.items()}
         okp = False
